@@ -62,6 +62,37 @@ SYSTEMS = [
   lambda d: sympy.Matrix([[d['a'] + Dagger(d['a']), 1 + Dagger(d['a'])], [1 + d['a'], d['a'] + Dagger(d['a'])]])),
 ]
 
+PRIMES = [2, 3, 5, 7, 11, 13]
+def random_system(rnd):
+    """a generated system: 1-3 modes of mixed statistics, H_0 a polynomial in the number operators with rational coefficients (anharmonic, with
+    number-number couplings), the perturbation W + W^dagger for a random polynomial W of degree <= 3 in the generators (complex coefficients at times)"""
+    kinds = rnd.choice([['b'], ['b', 'b'], ['b', 'f'], ['f', 'f'], ['b', 's'], ['s', 'f'], ['l'], ['l', 'f'], ['f', 'f', 'f'], ['b', 'f', 'f'], ['s', 's'], ['l', 'b']])
+    names = ['a', 'b', 'c', 'd']; spec = [(k, names[i]) for i, k in enumerate(kinds)]
+    cplx = rnd.random() < 0.3
+    w = rnd.sample(PRIMES, len(spec)); al = [Q(1, rnd.choice([3, 7, 11])) for _ in spec]; cross = Q(1, rnd.choice([5, 13, 17])) if rnd.random() < 0.6 else 0
+    mons = []
+    for _ in range(rnd.randint(2, 4)):
+        word = [(rnd.randrange(len(spec)), rnd.random() < 0.5) for _ in range(rnd.randint(1, 3))]
+        coef = Q(rnd.randint(1, 3), rnd.choice([1, 2, 3])) * (1 + (sympy.I * rnd.choice([1, -1, 2]) if cplx else 0))
+        mons.append((coef, word))
+    def num(d, k, n):
+        return NumberOperator(d[n]) if k == 'l' else Dagger(d[n]) * d[n]
+    def H0f(d):
+        h = 0
+        for (k, n), wi, ai in zip(spec, w, al):
+            h = h + wi * num(d, k, n) + (ai * num(d, k, n) ** 2 if k in 'bl' else 0)
+        if cross and len(spec) >= 2: h = h + cross * num(d, *spec[0]) * num(d, *spec[1])
+        return h
+    def Vf(d):
+        W = 0
+        for coef, word in mons:
+            t = coef
+            for (m, cr) in word: t = t * (Dagger(d[spec[m][1]]) if cr else d[spec[m][1]])
+            W = W + t
+        return W + Dagger(W)
+    label = "generated: " + "".join(kinds) + " " + "; ".join(f"{c}*" + ".".join((spec[m][1] + ("+" if cr else "")) for m, cr in wd) for c, wd in mons) + f" | w={w} anh={al} cross={cross}"
+    return label, spec, H0f, Vf
+
 def run(label, spec, H0f, Vf, maxn, cut):
     spec = sorted(spec, key=lambda m: (ORDER[m[0]], m[1])); ops = [KIND[k](n) for k, n in spec]
     d = {n: o for (k, n), o in zip(spec, ops)}; lam = sympy.Symbol('lambda', real=True)
@@ -69,7 +100,8 @@ def run(label, spec, H0f, Vf, maxn, cut):
     Ht, U, Ud = block_diagonalize(H0 + lam * V, symbols=[lam])
     outs = {n: (Ht[0, 0, n], U[0, 0, n]) for n in range(1, maxn + 1)}
     dim = H0.rows if isinstance(H0, sympy.MatrixBase) else 1
-    ranges = [range(0, cut) if m[0] == 'b' else (range(-cut // 2, cut // 2 + 1) if m[0] == 'l' else range(0, 2)) for m in spec]
+    # an element between low states (|n| <= 2) at order <= 3 with steps of at most 3 quanta passes through |n| <= 5 only
+    ranges = [range(0, cut) if m[0] == 'b' else (range(-max(cut // 2, 6), max(cut // 2, 6) + 1) if m[0] == 'l' else range(0, 2)) for m in spec]
     states = list(itertools.product(*ranges)); idx = {s: i for i, s in enumerate(states)}; ns = len(states)
     def mat1(x):
         M = np.zeros((ns, ns), dtype=complex)
@@ -89,6 +121,7 @@ def run(label, spec, H0f, Vf, maxn, cut):
     states_all = [s for _ in range(dim) for s in states]
     H0m = mat(H0); Vm = mat(V); E = np.diag(H0m).real
     elim = np.abs(E.reshape(-1, 1) - E) > 1e-9
+    if label.startswith("generated") and (~elim).sum() > len(E): return None       # two Fock states share an unperturbed energy: outside the quantifier
     rHt, rU, rUi = reference({(0,): H0m, (1,): Vm}, elim, (maxn,))
     low = [i for i, s in enumerate(states_all) if all(abs(x) <= 2 for x in s)]
     res = []
@@ -100,17 +133,23 @@ def run(label, spec, H0f, Vf, maxn, cut):
 
 def main(seed, ncases, driver, out):
     failures = []; dist = {}; samples = []; evals = 0; distinct = 0; worst = 0.0
-    for c in range(min(ncases, len(SYSTEMS))):
+    for c in range(ncases):
         if skip(c): continue
-        label, spec, H0f, Vf = SYSTEMS[c]; dist[label] = 1; samples.append({"system": label, "modes": spec})
+        if c < len(SYSTEMS): label, spec, H0f, Vf = SYSTEMS[c]; cut = 8
+        else:
+            label, spec, H0f, Vf = random_system(case_rnd(seed, c)); cut = 8
+        dist[label.split(" ")[0] + " " + "".join(k for k, _ in spec)] = dist.get(label.split(" ")[0] + " " + "".join(k for k, _ in spec), 0) + 1
+        if len(samples) < 12: samples.append({"system": label, "modes": spec})
         try:
-            for (n, eh, eu, nlow) in run(label, spec, H0f, Vf, 3, 8):
+            res = run(label, spec, H0f, Vf, 3, cut)
+            if res is None: dist["skipped: degenerate Fock levels"] = dist.get("skipped: degenerate Fock levels", 0) + 1; continue
+            for (n, eh, eu, nlow) in res:
                 evals += 2 * nlow * nlow; worst = max(worst, eh, eu)
                 if eh > 1e-8 or eu > 1e-8: failures.append({"system": label, "kind": "differs-from-fock-matrices", "order": n, "H_tilde_err": eh, "U_err": eu})
             distinct += 1
         except Exception as e:
             failures.append({"system": label, "kind": "implementation-raises", "error": type(e).__name__ + ": " + str(e)[:150]})
-    json.dump({"evaluations": evals, "cases": min(ncases, len(SYSTEMS)), "distinct_nontrivial": distinct, "failures": failures, "distribution": dist,
+    json.dump({"evaluations": evals, "cases": ncases, "distinct_nontrivial": distinct, "failures": failures, "distribution": dist,
                "samples": samples, "worst_abs_error": worst}, open(out, "w"))
 
 if __name__ == "__main__":
